@@ -182,6 +182,9 @@ type yangMetaStack struct {
 }
 
 func (s *yangMetaStack) push(def interface{}) interface{} {
+	if s.count == len(s.defs) {
+		s.defs = append(s.defs, nil)
+	}
 	s.defs[s.count] = def
 	s.count++
 	return def
@@ -275,6 +278,9 @@ func (l *lexer) acceptWS() {
 		} else if strings.HasPrefix(l.input[l.pos:], str_comment_inline_start) {
 			for {
 				l.next()
+				if l.isEof() {
+					break
+				}
 				if l.input[l.pos] == '\n' {
 					l.pos++
 					break
@@ -343,6 +349,10 @@ func (l *lexer) acceptRun(ttype int, valid string) bool {
 
 func (l *lexer) acceptString() bool {
 	begin := l.next()
+	if begin == eof {
+		l.backup()
+		return false
+	}
 	isDblQuote := begin == char_doublequote
 	isSglQuote := begin == char_singlequote
 	isSpaceDelim := !isSglQuote && !isDblQuote
